@@ -133,11 +133,32 @@ pub fn c06(g: &mut G) {
                 x /= 5;
             }
             // values decrease or increase along the sequence (a rejected duplicate may carry a smaller value)
-            let ins: Vec<Call> = ks.iter().enumerate().map(|(j, k)| Call::Ins(k.clone(), if idx % 2 == 0 { j as u64 + 1 } else { 10 * (len - j) as u64 })).collect();
+            // … or is 0 everywhere / only on the later calls (a repeat with value 0 must still be a duplicate)
+            let ins: Vec<Call> = ks
+                .iter()
+                .enumerate()
+                .map(|(j, k)| {
+                    Call::Ins(
+                        k.clone(),
+                        match idx % 4 {
+                            0 => j as u64 + 1,
+                            1 => 10 * (len - j) as u64,
+                            2 => 0,
+                            _ => if j == 0 { 7 } else { 0 },
+                        },
+                    )
+                })
+                .collect();
             let adds: Vec<Call> = ks.iter().map(|k| Call::Add(k.clone())).collect();
             g.emit(build_line("map", 0, "default", "seq", &ins));
             g.emit(build_line("set", 0, "default", "seq", &adds));
-            if idx % 3 == 0 {
+            if idx % 3 == 1 || len <= 2 {
+                // the same iterator handed to extend_iter again after each error
+                g.emit(build_line("map_iter_resume", 0, "default", "resume", &ins));
+                g.emit(build_line("set_iter_resume", 0, "default", "resume", &adds));
+                g.emit(build_line("raw_iter_resume", 0, "default", "resume", &ins));
+            }
+            if idx % 3 == 0 || len <= 2 {
                 for fe in ["map_iter", "map_stream", "map_from_iter", "raw_iter", "raw_stream", "raw_from_iter_map"] {
                     g.emit(build_line(fe, 0, "default", "stop", &ins));
                 }
